@@ -20,6 +20,7 @@ The closed expressions (`gapOf`, `lHigh`, `keep`, `breakCond`, `pickLast`, const
 -/
 import FairModel.Model.Proto
 import FairModel.Generated.EGGen
+import FairModel.Generated.ProjectLambdaSrc
 
 namespace Saddle
 
@@ -65,9 +66,10 @@ def trueGap (T : Table) (B : Rat) (Q lam : Nat → Rat) : Rat := gap T B Q lam (
 def posPart (q : Rat) : Rat := if q < 0 then 0 else q
 
 /-- `UtilityParity.project_lambda` for ratio = 1; entries `j < m` are the `+` multipliers, entries
-    `m ≤ j < 2m` the `-` multipliers of the same (event, group) pairs. -/
+    `m ≤ j < 2m` the `-` multipliers of the same (event, group) pairs.  The entry formulas are the lifted text of the
+    method (`Generated/ProjectLambdaSrc.lean`); `Lemmas/Saddle.lean:project_lo/_hi` relate them to `posPart`. -/
 def project (m : Nat) (lam : Nat → Rat) : Nat → Rat := fun j =>
-  if j < m then posPart (lam j - lam (j + m)) else posPart (lam j - lam (j - m))
+  if j < m then ProjectLambdaSrc.posOf (lam j) (lam (j + m)) else ProjectLambdaSrc.negOf (lam (j - m)) (lam j)
 
 def projectIf (ratioOne : Bool) (m : Nat) (lam : Nat → Rat) : Nat → Rat :=
   if ratioOne then project m lam else lam
